@@ -166,6 +166,11 @@ impl<'a, 'tcx> BodyCx<'a, 'tcx> {
                             }
                         }
                     }
+                } else if let ConstValue::Scalar(rustc_middle::mir::interpret::Scalar::Ptr(ptr, _)) = v {
+                    let aid = ptr.provenance.alloc_id();
+                    if let Some(rustc_middle::mir::interpret::GlobalAlloc::Static(sd)) = tcx.try_get_global_alloc(aid) {
+                        o.put("static", J::s(key(tcx, sd)));
+                    }
                 } else if matches!(v, ConstValue::ZeroSized) {
                     o.put("zst", J::Bool(true));
                 }
